@@ -525,10 +525,10 @@ Definition l_add_kid (k : inode) (s : lstate) : lstate + perr :=
 Definition lstep (s : lstate) (c : sax) : lstate + perr :=
   match c with
   | SStartPrefix p u =>
-      if ostr_eqb p (Some s_xml) && str_eqb u ns_xml then
-        (* libxml2 knows the xml prefix; declaring it again has no effect *)
-        inl s
-      else if l_prefix_ok p && l_uri_ok u && negb (str_eqb u ns_xml) && negb (str_eqb u ns_xmlns) then
+      (* xml -> its own namespace: libxml2 knows that binding and prints no declaration for
+         it; the model records it like any other in-scope binding (it is always in scope) *)
+      if (ostr_eqb p (Some s_xml) && str_eqb u ns_xml)
+         || (l_prefix_ok p && l_uri_ok u && negb (str_eqb u ns_xml) && negb (str_eqb u ns_xmlns)) then
         inl {| l_default := match p with None => Some u | Some _ => l_default s end;
                l_dstack := match p with None => Some u :: l_dstack s | Some _ => l_dstack s end;
                l_new := nm_set (l_new s) p u; l_stack := l_stack s; l_root := l_root s |}
